@@ -57,7 +57,7 @@ type vc02Object struct {
 	Gen       uint32     `json:"gen"`
 }
 type vc02Op struct {
-	Op  string `json:"op"` // track | validate | expire | sweep
+	Op  string `json:"op"` // track | track_ine | validate | expire | sweep
 	Obj int    `json:"obj"`
 }
 type vc02Flight struct {
@@ -404,6 +404,10 @@ func (w *vc02World) runOp(op vc02Op) string {
 	switch op.Op {
 	case "track":
 		if err := w.rm.TrackRegistration(reg); err != nil {
+			return "err: " + err.Error()
+		}
+	case "track_ine": // the ingest pipeline's entry point: same effect on the registry
+		if _, err := w.rm.TrackRegIfNotExists(reg); err != nil {
 			return "err: " + err.Error()
 		}
 	case "validate":
